@@ -48,9 +48,11 @@ pub struct Knobs {
     pub max_blocks: u64,
     /// allow coin forwarding / transfers
     pub coins: bool,
+    /// bias towards calls, recursion and callee heap allocation (C34)
+    pub call_heavy: bool,
 }
 impl Knobs {
-    pub fn normal() -> Self { Knobs { fault_pm: 30, unlisted_pm: 0, max_blocks: 10, coins: true } }
+    pub fn normal() -> Self { Knobs { fault_pm: 30, unlisted_pm: 0, max_blocks: 10, coins: true, call_heavy: false } }
 }
 
 fn gp(rng: &mut Rng) -> u8 { GP_LO + rng.below(GP_N as u64) as u8 }
@@ -142,6 +144,7 @@ pub fn block(g: &mut GenCtx, out: &mut Vec<Instruction>) {
     }
     let pick = g.rng.below(if g.internal { 16 } else { 14 });
     let pick = if !g.internal && pick < 2 && !g.callable.is_empty() && g.rng.chance(1, 2) { 3 } else { pick };
+    let pick = if g.knobs.call_heavy && g.rng.chance(1, 3) { *g.rng.pick(&[3u64, 5, 9, 8]) } else { pick };
     match pick {
         0 | 1 => { let k = g.rng.range(1, 6); alu(g.rng, k, out); }
         2 => {
@@ -285,7 +288,7 @@ pub fn program(g: &mut GenCtx) -> Vec<Instruction> {
     let mut out = vec![op::gtf_args(R_BASE, RegId::ZERO, GTFArgs::ScriptData)];
     if !g.internal {
         if g.rng.chance(1, 2) { out.push(op::movi(R_T1, 3)); out.push(op::flag(R_T1)); }
-        out.push(op::movi(R_DEPTH, g.rng.below(4) as u32));
+        out.push(op::movi(R_DEPTH, if g.knobs.call_heavy { g.rng.range(1, 6) as u32 } else { g.rng.below(4) as u32 }));
     }
     let nb = g.rng.range(1, g.knobs.max_blocks.max(1));
     for _ in 0..nb { block(g, &mut out); }
